@@ -114,7 +114,9 @@ def reg_case(rng):
 
 def run(res, rng, tier, model_ok, replay=None):
     cases = []
-    if replay:
+    if replay and isinstance(replay.get("case"), dict):
+        pass
+    elif replay:
         line = replay.get("case") or replay["broken_correspondence"]["case"]
         cases.append({"line": line})
     else:
@@ -156,7 +158,21 @@ def run(res, rng, tier, model_ok, replay=None):
         else:
             res.nontrivial.add(("ghw", tag))
             res.notes.append("%s build: %s" % (tag, out[:200]))
-    res.samples = [c["line"][:200] for c in cases[:2]] + [cases[-1]["line"][:300]]
+    if not replay:
+        # generated GHW files with variables that consist of signals of an earlier vector (the whole vector again, a proper
+        # sub-range, a single element; ascending and descending declared ranges on both sides): the full listing - every
+        # such variable reports exactly its sub-range of the vector's changes - must equal the one computed from the design
+        import json
+        from .. import designs
+        fcases = [c for c in designs.ghw_cases(rng, tier) if c.get("opts") is not None and "slice_of" in json.dumps(c["spec"])]
+        for c in fcases:
+            c["klass"] = "file-ghw-sub-range-variables"
+        designs.run_file_cases(res, fcases[:(40 if tier == "quick" else 800)], "c13f")
+    elif isinstance(replay.get("case"), dict):
+        from .. import designs
+        designs.replay_filecase(res, replay, "c13f")
+    if cases:
+        res.samples = [c["line"][:200] for c in cases[:2]] + [cases[-1]["line"][:300]] + res.samples[-1:]
 
 
 def check_known(entry):
